@@ -2,5 +2,6 @@ CONSTANTS
   Depth = 1
   AllVias = TRUE
   Prune = TRUE
+  PruneLast = FALSE
 SPECIFICATION Spec
 INVARIANT Emit
